@@ -7,11 +7,6 @@ From XD Require Import model.RefSyntax model.RefTables model.Refs model.RefsOk m
 Import ListNotations.
 
 (* ---- boolean equality of terms is equality --------------------------------------- *)
-Lemma pystr_eqb_eq a b : pystr_eqb a b = true -> a = b.
-Proof.
-  revert b; induction a as [|x a IH]; intros [|y b] H; cbn in H; try discriminate; auto.
-  apply andb_prop in H as [H1 H2]. apply N.eqb_eq in H1. subst. f_equal; auto.
-Qed.
 
 Section LitInd.
   Variable P : lit -> Prop.
